@@ -12,4 +12,4 @@ def classify(name, prog, res):
 
 
 def run(ctx):
-    return mp.generic_run(ctx, {"C03b": mp.on_mir("C03b")}, classify)
+    return mp.generic_run(ctx, {"C03b": mp.on_mir("C03b")}, classify, api_probe=True)
